@@ -21,7 +21,12 @@ for p in "${patches[@]}"; do
   name=$(echo $p | sed 's#/verif/##; s#/patch.diff##; s#mutants/##; s#seeded/##; s#.diff##')
   if ! git -C $MX/repo apply --check "$p" 2>/dev/null; then echo -e "$name\t-\tnoapply\t0" >> $out.tmp; continue; fi
   git -C $MX/repo apply "$p"
-  for c in $checks; do
+  run_checks="$checks"
+  if [ -n "${OWN:-}" ]; then
+    # only the check of the property the change was written against (seeded/Cnn-x, regress-Cnn[Cmm]-...)
+    run_checks=$(echo "$name" | grep -oE 'C[0-9]{2}' | sort -u | tr '\n' ' ')
+  fi
+  for c in $run_checks; do
     o=$($MX/verif/check $c quick 2>&1); code=$?
     nv=$(echo "$o" | grep -c '^VIOLATION')
     echo -e "$name\t$c\t$code\t$nv" >> $out.tmp
